@@ -465,6 +465,8 @@ class Engine:
         pc = st_or_pc.pc if isinstance(st_or_pc, State) else st_or_pc
         if isinstance(goal, bool):
             goal = z3.BoolVal(goal)
+        if "concretize" not in meta and getattr(self, "default_concretize", None) is not None:
+            meta["concretize"] = self.default_concretize      # counter-model -> concrete call of the real function (pyvc/cex.py)
         self.obligations.append({"name": name, "pc": list(pc) + list(self.axiom_instances), "goal": goal, "meta": meta})
 
     def feasible(self, st, extra=None):
